@@ -89,6 +89,14 @@ def run(chk: common.Check, tier: str):
                         "visit_Repeat0", "visit_Repeat1", "visit_Rhs", "visit_Rule", "visit_StringLeaf"]
     chk.oblige("FirstSetCalculator defines a handler for every node class (dispatch table extracted from first_sets.py)",
                vm.get("FirstSetCalculator") == expected_methods, str(vm.get("FirstSetCalculator")))
+    (d / "Instances.v").write_text(
+        "From Coq Require Import List String Bool.\nFrom Pegen Require Import Analysis.Visitor Proofs.NullableProofs Proofs.NullSem.\n"
+        "Require Import Tables.\n"
+        "Lemma nullable_table_sem_ok : nul_tbl_ok nullable_tbl = true.\nProof. vm_compute. reflexivity. Qed.\n"
+        "Lemma nullable_table_monotone : monotone_tbl nullable_tbl = true.\nProof. vm_compute. reflexivity. Qed.\n")
+    rc, out = common.coqc(d / "Instances.v")
+    chk.oblige("instance lemmas: the extracted NullableVisitor table grants every construct its empty match (nul_tbl_ok) and "
+               "is monotone (hypotheses of the C19 theorems)", rc == 0, out[-2000:])
     cases, descs, jobs, meta = [], [], [], []
     for text in grammar_texts(tier):
         try:
